@@ -857,14 +857,13 @@ std::vector<shape_t> make_shapes()
         s.make                  = [strict]
         { return strict ? parameter_t::make_integer("p", 1, LT, 5, LT, 10) : parameter_t::make_integer("p", 1, LE, 5, LE, 10); };
         s.ops = {opI64(0), opI64(1), opI64(2), opI64(5), opI64(9), opI64(10), opI64(11), opI64(std::numeric_limits<int64_t>::min()),
-                 opI64(std::numeric_limits<int64_t>::max()), opI32(0), opI32(10), opI32(7),
+                 opI64(std::numeric_limits<int64_t>::max()), opI32(0), opI32(10),
                  opF64(0.0), opF64(1.0), opF64(2.0), opF64(9.0), opF64(10.0), opF64(11.0), opF64(-0.0),
                  opF64(2.5), opF64(0.5), opF64(10.5), opF64(std::nextafter(1.0, 0.0)), opF64(std::nextafter(10.0, 11.0)),
-                 opF64(NaN), opF64(INF), opF64(-INF), opF64(1e300), opF64(-1e300), opF32(3.0F),
+                 opF64(NaN), opF64(INF), opF64(-INF), opF64(1e300), opF32(3.0F),
                  opPI64(1, 2), opPI32(1, 2), opPF64(1.0, 2.0),
                  opS("5"), opS("1"), opS("10"), opS("0"), opS("11"), opS("-3"), opS("0.5"), opS("1e-1"), opS("5,7"), opS("7;5"),
-                 opS(""), opS("abc"), opS("nan"), opS("3abc"), opS("type2"), opS("typeX"), opS("99999999999999999999"),
-                 opS("9.9")};
+                 opS(""), opS("abc"), opS("nan"), opS("3abc"), opS("type2"), opS("99999999999999999999")};
         add_common_tail(s.ops);
         core_of(s, {opI64(0), opI64(1), opI64(9), opI64(10), opI64(11), opF64(2.0), opF64(10.0), opF64(NaN), opF64(2.5),
                     opS("5"), opS("0"), opS("abc"), opS(""), opPI64(1, 2), opT(ot::WRITE_READ), opT(ot::COPY)});
@@ -959,14 +958,14 @@ std::vector<shape_t> make_shapes()
             }
         }
         const double below1 = std::nextafter(1.0, 0.0);
-        for (const auto& o : {opPF64(DMIN, below1), opPF64(DMIN, DMIN), opPF64(0.5, std::nextafter(0.5, 1.0)), opPF64(0.5, 0.5),
+        for (const auto& o : {opPF64(DMIN, below1), opPF64(0.5, std::nextafter(0.5, 1.0)), opPF64(0.5, 0.5),
                               opPF64(-0.0, 0.5), opPF64(0.25, NaN), opPF64(NaN, 0.75), opPF64(-INF, 0.5), opPF64(0.5, INF),
-                              opPF64(NaN, NaN), opPF64(0.1, 0.9), opPI64(0, 1), opPI64(1, 0), opPI64(0, 0), opPI32(0, 1),
-                              opI64(0), opF64(0.5), opI32(1),
+                              opPF64(0.1, 0.9), opPI64(0, 1), opPI64(1, 0), opPI32(0, 1),
+                              opI64(0), opF64(0.5),
                               opS("0.25,0.75"), opS("0.75;0.25"), opS("0.5"), opS("5,7"), opS("7;5"), opS(""), opS("abc"), opS("nan"),
                               opS("0.1,nan"), opS("nan,0.9"), opS("1e-1,0.5"), opS("0,1"), opS("0.5,0.5"), opS("0.25 0.5"),
-                              opS("0.1,0.2,0.3"), opS("0.1x,0.5"), opS("abc,0.5"), opS("0.5,abc"), opS("type2"), opS("typeX"),
-                              opS("5"), opS("0.1|inf"), opS("1e-999,0.5")})
+                              opS("0.1,0.2,0.3"), opS("0.1x,0.5"), opS("abc,0.5"), opS("type2"),
+                              opS("0.1|inf"), opS("1e-999,0.5")})
         {
             s.ops.push_back(o);
         }
@@ -1412,6 +1411,10 @@ int stage_bfs(const args_t& args, report_t& r)
     const int L  = static_cast<int>(args.geti("full", args.thorough() ? 4 : 3));    // full alphabet, no deduplication
     const int Lc = static_cast<int>(args.geti("core", args.thorough() ? 5 : 4));    // core alphabet, no deduplication
     const int Ls = static_cast<int>(args.geti("core_scalar", args.thorough() ? 6 : 4)); // the same for the scalar shapes
+    // full-alphabet histories longer than this are judged on the transition clauses (i)-(iii) (and (v) when the last
+    // operation is a write+read) but without the extra reader sweep (iv)/(v) on the final state: that state's kind
+    // cannot differ (clause (i)) and the sweep is run on every shorter history, every core history and every BFS state
+    const int Lr = static_cast<int>(args.geti("reads_upto", 3));
 
     for (const auto& sh : shapes)
     {
@@ -1421,7 +1424,8 @@ int stage_bfs(const args_t& args, report_t& r)
     }
     r.axis("bounds", jobj({{"dedup_bfs_depth", jint(D)}, {"full_alphabet_history_length", jint(L)},
                            {"core_alphabet_history_length", jint(Lc)},
-                           {"core_alphabet_history_length_scalar_shapes", jint(Ls)}}));
+                           {"core_alphabet_history_length_scalar_shapes", jint(Ls)},
+                           {"reader_sweep_on_full_alphabet_histories_up_to_length", jint(Lr)}}));
     r.assume("string/number inputs whose conversion the statement does not define are judged only on (i) stored value "
              "inside the domain and (ii) throw => state bit-identical, not on accept/reject or read-back: numeric text "
              "followed by other text ('3abc', '0.5' or '1e-1' or '5,7' given to an integer, '5,7' given to a scalar), "
@@ -1530,7 +1534,7 @@ int stage_bfs(const args_t& args, report_t& r)
                 hist[static_cast<size_t>(k)] = full ? static_cast<int>(d) : sh.core[d];
                 x /= A;
             }
-            run_history(sh, hist, r, true);
+            run_history(sh, hist, r, !full || len <= Lr);
             ++histories;
             if ((++done & 4095U) == 0U && r.out_of_time())
             {
